@@ -319,10 +319,12 @@ class LRI(dict):
     def update(self, E, **F):
         # E and F are throwback names to the dict() __doc__
         with self._lock:
-            setitem = self.__setitem__
             if E is self:
-                pass
-            elif callable(getattr(E, 'keys', None)):
+                if F:
+                    self.update((), **F)
+                return
+            setitem = self.__setitem__
+            if callable(getattr(E, 'keys', None)):
                 for k in E.keys():
                     setitem(k, E[k])
             else:
